@@ -79,6 +79,10 @@ def _history(draw):
             ops.append([kind, draw(st.integers(2, 30))])
         else:
             ops.append([kind])
+    if draw(st.integers(0, 5)) == 0:
+        # a kick mask set while one splitting method is selected, then another splitting method (or the same again)
+        a_, b_ = draw(st.sampled_from(["ABAs5o6HSolver", "SymplecticEulerSolver", "BABs9o7HSolver"])), draw(st.sampled_from(["BABs9o7HSolver", "ABAs5o6HSolver", "SymplecticEulerSolver"]))
+        ops = [["set_method", a_], ["set_kick", draw(st.sampled_from(["first_half", "default"]))], ["set_method", b_]] + ops
     return dict(part="history", prob=prob, y0=draw(PR.state(prob["shape"])), t0=t0, tf=t0 + direction * L, dt=draw(st.sampled_from([0.1, 0.05, 0.25])),
                 rtol=1e-6, atol=1e-6, dense=draw(st.booleans()), method=draw(st.sampled_from(METHOD_POOL)), constants=draw(st.sampled_from([{}, {"k": 1.5}])), ops=ops)
 
